@@ -14,6 +14,7 @@ import (
 	"strconv"
 	"strings"
 	"sync"
+	"sync/atomic"
 	"testing/synctest"
 	"time"
 )
@@ -129,6 +130,7 @@ type Sim struct {
 	KeepLog   bool
 
 	sleepers int
+	barrier, barrierWant atomic.Int32
 
 	// Pair mode (race detection): release two at once.
 	Pair bool
@@ -373,6 +375,14 @@ func (s *Sim) Yield(desc string) *Gor {
 	if killed := <-p.ch; killed {
 		runtime.Goexit()
 	}
+	if s.Pair {
+		// rendezvous of the two goroutines released together, so that their segments really overlap
+		// (atomics order only what came before; the segments that follow stay unordered for the race detector)
+		s.barrier.Add(1)
+		for i := 0; i < 2000 && s.barrier.Load() < s.barrierWant.Load(); i++ {
+			runtime.Gosched()
+		}
+	}
 	return g
 }
 
@@ -522,8 +532,9 @@ func (s *Sim) Run(finished func() bool, drain time.Duration) {
 		}
 		ids, nextStall := s.candidates(now)
 		if len(ids) == 0 {
+			sleepers := s.sleepers
 			s.mu.Unlock()
-			if s.sleepers > 0 {
+			if sleepers > 0 {
 				// a harness sleeper with a finite deadline will park later
 				idleSince = time.Time{}
 				<-s.wake
@@ -580,6 +591,14 @@ func (s *Sim) Run(finished func() bool, drain time.Duration) {
 		s.Steps++
 		s.last, s.lastID = lineageRoot(p.g.ID), p.g.ID
 		s.mu.Unlock()
+		if s.Pair {
+			s.barrier.Store(0)
+			if p2 != nil {
+				s.barrierWant.Store(2)
+			} else {
+				s.barrierWant.Store(1)
+			}
+		}
 		p.ch <- false
 		if p2 != nil {
 			p2.ch <- false
